@@ -88,8 +88,8 @@ pub fn call(c: &Call) -> Option<String> {
 pub fn args(a: &FunctionArgs) -> Option<String> {
     Some(match a {
         FunctionArgs::Parentheses { arguments, .. } => format!("(AParens {})", exprs(arguments.iter())?),
-        FunctionArgs::String(t) => format!("(AString {})", raw(t)),
-        FunctionArgs::TableConstructor(t) => format!("(ATable {})", fields(t)?),
+        FunctionArgs::String(t) => format!("(Syntax.AString {})", raw(t)),
+        FunctionArgs::TableConstructor(t) => format!("(Syntax.ATable {})", fields(t)?),
         _ => return None,
     })
 }
